@@ -4,7 +4,8 @@
     interleaving of attribute changes, events, subscribe/priming steps, report
     steps, purges, removals, expiry sweeps, persisting and restarts. *)
 From RsM Require Import Lib.MachInt Model.Subs Model.SubsSpec
-  Proofs.SubsFacts Proofs.SubsInv Proofs.SubsTiming Proofs.SubsTheorems Proofs.SubsSlot.
+  Proofs.SubsFacts Proofs.SubsInv Proofs.SubsTiming Proofs.SubsTheorems Proofs.SubsSlot
+  Model.C13Events Proofs.C13EventsFacts.
 Open Scope N_scope.
 
 (** No lost change: for every subscription kept in the table and every
@@ -153,6 +154,35 @@ Theorem C13_slot_before_fix :
   ids_in_table (run_gen true false init slot_witness) = [1] /\ ids_in_table (run init slot_witness) = [2].
 Proof. exact (conj slot_before_fix slot_after_fix). Qed.
 Print Assumptions C13_slot_before_fix.
+
+(** Events (Model/C13Events.v: the three event buffers and the range filter of the reader).  For every
+    sequence of pushes into buffers of any capacity: a report with event range (seen, upto] delivers
+    exactly the events of that range the buffers still hold - the readers' iteration order is ascending
+    in the event number, so the running watermark of the reader skips nothing. *)
+Theorem C13_event_delivered_iff_retained : forall cap l seen upto n,
+  N.of_nat (length l) + 3 < two64 ->
+  let q := push_all cap evq_init l in
+  In n (report_events q seen upto) <-> (retained q n = true /\ seen < n /\ n <= upto).
+Proof. exact report_delivers_retained. Qed.
+Print Assumptions C13_event_delivered_iff_retained.
+
+(** ... hence every event above the subscriber's watermark is delivered by the next report that reaches
+    it - outside the known class: the event was pushed out of the buffers before that report. *)
+Theorem C13_event_delivered_unless_evicted : forall cap l seen n,
+  N.of_nat (length l) + 3 < two64 ->
+  let q := push_all cap evq_init l in
+  seen < n -> n < q_next q -> evicted_undelivered q seen n = false ->
+  In n (report_events q seen (q_next q - 1)).
+Proof. exact delivered_unless_evicted. Qed.
+Print Assumptions C13_event_delivered_unless_evicted.
+
+(** The class is inhabited (buffers of 64 bytes, seven info events of 30 bytes: the first three are gone
+    before any report; the subscriber is sent 4..7 and nothing tells it about 1..3). *)
+Theorem C13_event_eviction_witness :
+  let q := push_all 64 evq_init evict_witness in
+  evicted_undelivered q 0 1 = true /\ report_events q 0 7 = [4; 5; 6; 7].
+Proof. exact evicted_inhabited. Qed.
+Print Assumptions C13_event_eviction_witness.
 
 (** * Non-vacuity *)
 
